@@ -1,6 +1,7 @@
 //! In-process property checks against libwild / linker-utils (built with --cfg wild_verif).
 //! Usage: vcheck <subcommand> --seed N --cases N [--replay FILE]
 //! Prints one JSON object on stdout describing what was explored and any violation found.
+mod c13;
 mod c29;
 mod util;
 
@@ -12,6 +13,7 @@ fn main() {
     }
     let opts = util::Opts::parse(&args[2..]);
     let out = match args[1].as_str() {
+        "c13" => c13::run(&opts),
         "c29" => c29::run(&opts),
         other => {
             eprintln!("unknown check {other}");
